@@ -1096,7 +1096,22 @@ def oracleC10 (mode : String) (a b : Node) : Verdict :=
       | some (path, p, q) =>
         let caps := (capturedRoles b).map (·.1)
         let cap := !(collect (fun n => match n with | .mk .ident (_ :: bnd :: _) _ => caps.contains bnd | _ => false) y).isEmpty
-        .fail (if cap then "lowering-depends-on-context/captured-temporary" else "lowering-depends-on-context") s!"at {path}: alone {showN p}, in context {showN q}"
+        -- the RECORDED mechanism (known finding): the remembered target of the last assignment is consumed by the FIRST component after it
+        -- whose only child is an identifier or (object slots) a call.  A captured copy in a statement that has such a consumer between
+        -- the assignment and itself is NOT that history: it gets a key of its own.
+        let consumes (st : Node) : Bool := !(collect (fun z => match z with
+            | .mk .cond _ (.mk .call _ (.mk .ident (nm :: _) _ :: _) :: _) => nm.startsWith "_isSlot"
+            | .mk .kv _ [.mk _ ("default" :: _) _, .mk .arrow _ (_ :: .mk .array _ [.mk .list _ [.mk .arg _ [.mk .ident _ _]]] :: _)] => true
+            | _ => false) st).isEmpty
+        let assigns (st : Node) : Bool := !(collect (fun z => match z with
+            | .mk .assign _ (.mk .ident _ _ :: _) => true
+            | _ => false) st).isEmpty
+        let before := ((moduleItems (stripInserted b)).take sj.toNat!).reverse
+        let explained := match before.find? (fun st => consumes st || assigns st) with
+          | some st => assigns st && !consumes st
+          | none => false
+        .fail (if cap then (if explained then "lowering-depends-on-context/captured-temporary" else "lowering-depends-on-context/captured-copy-after-a-consumer")
+               else "lowering-depends-on-context") s!"at {path}: alone {showN p}, in context {showN q}"
     | _, _ => .fail "statement-not-found" mode
   | _ => .skip "bad-mode"
 
